@@ -29,7 +29,7 @@ TStale == IsEv("stale") /\ TickLog /\ Tag("C03.stale-burst", fate'[Len(fate')].i
 TTickEnd == /\ IsEv("tickEnd") /\ tpc = "done" /\ tpc' = "end"
             /\ UNCHANGED <<run, q, lock, sop, spc, smsg, tfn, emit, drop, accepted, fate>> /\ Adv
 TFinal == /\ IsEv("final") /\ spc = "end" /\ tpc = "end"
-          /\ Tag("C03.final-queue", [k \in 1..Len(q) |-> q[k].id] = Ev.q /\ run = Ev.run)
+          /\ Tag("C03.final-queue", (("qunobs" \in DOMAIN Ev /\ Ev.qunobs) \/ [k \in 1..Len(q) |-> q[k].id] = Ev.q) /\ run = Ev.run)
           /\ Tag("C03.no-silent-loss", accepted = QIds \cup FateIds)
           /\ UNCHANGED tvars /\ Adv
 
